@@ -227,7 +227,8 @@ def c01(rep, tier):
                 if [vm.act_field(t) for t in tg if t is not None] != [(0, 'data_start')]:
                     why.append('contract: shrink data to the finished activation\'s start; found %s' % [o[0] for o in other])
             # no other writes
-            extra = [ef for ef in s.p.effects if ef[0] in ('write', 'assoc', 'map_subscript') and ef[1][:len(iplp)] != iplp and ef[1][:len(slp)] != slp]
+            extra = [ef for ef in s.p.effects if ef[0] in ('write', 'assoc', 'map_subscript') and ef[1][:len(iplp)] != iplp and ef[1][:len(slp)] != slp
+                     and not (ef[0] == 'write' and lp_show(ef[1]).split('.')[0].split('[')[0] in vm.roles.get('other', []))]
             if extra:
                 why.append('additional effects: %s' % [lp_show(x[1]) for x in extra])
         if why is None:
@@ -451,7 +452,8 @@ def c01(rep, tier):
         if nm is None:
             E.unknown('dispatchIf: target', 'cannot see which mark name the jump label %s is looked up under' % show(lab), W(m, di))
         else:
-            E.check('c->right->left->tok' in show(nm), 'dispatchIf: target', 'jumps to the mark named by the GOTO child', 'jump target is looked up under %s' % show(nm), W(m, di))
+            nm_txt = show(nm) + ' ' + ' '.join(show(m.origin(di, a)) for a in (nm.get('args') or []) if nm.get('k') == 'call')
+            E.check('c->right->left->tok' in nm_txt, 'dispatchIf: target', 'jumps to the mark named by the GOTO child', 'jump target is looked up under %s' % show(nm), W(m, di))
     else:
         E.unknown('dispatchIf', 'lowering shape not recognised')
     # PROGRAM
@@ -589,7 +591,8 @@ def c01(rep, tier):
         if nm is None:
             E.unknown('dispatchGoto', 'cannot see which mark name the jump label %s is looked up under' % show(lab), W(m, dg))
         else:
-            E.check('c->left->tok' in show(nm), 'dispatchGoto', 'Jmp(mark named by node->left)', 'goto jumps to the mark looked up under %s' % show(nm), W(m, dg))
+            nm_txt = show(nm) + ' ' + ' '.join(show(m.origin(dg, a)) for a in (nm.get('args') or []) if nm.get('k') == 'call')
+            E.check('c->left->tok' in nm_txt, 'dispatchGoto', 'Jmp(mark named by node->left)', 'goto jumps to the mark looked up under %s' % show(nm), W(m, dg))
     # ------------------------------------------------------------------ f
     F = rep.rule('C01.f', 'a temporary register is not used after it was released', floor=5)
     for f in m.all_fns():
